@@ -17,6 +17,8 @@ type ConnV struct {
 	failMode  int // 0 never fail, 1 each write may fail (decision), 2 always fail
 	nFail     int
 	wrAfterCl int
+	blocking  bool // reads wait when the script is exhausted (until fed, EOF or closed)
+	eof       bool
 }
 
 func (c *ConnV) readByte(ex *Exec) (*Term, Iface) {
@@ -26,6 +28,13 @@ func (c *ConnV) readByte(ex *Exec) (*Term, Iface) {
 	}
 	if c.closed {
 		return Const(8, 0), ex.newErr("use of closed network connection")
+	}
+	if c.rd >= len(c.script) && c.blocking && !c.eof {
+		// a live connection with nothing to read: the reader waits for more bytes, EOF or Close
+		ex.block(func() bool { return c.rd < len(c.script) || c.eof || c.closed }, "conn read")
+		if c.closed {
+			return Const(8, 0), ex.newErr("use of closed network connection")
+		}
 	}
 	if c.rd >= len(c.script) {
 		return Const(8, 0), ex.sh.ioErr(ex, "EOF")
